@@ -199,13 +199,22 @@ func run(r *engine.Run) {
 		r.Outcomes["begin-block-order:mint<oracle<bandtss<distribution"]++
 		r.Notes = append(r.Notes, "begin blockers in application order: "+strings.Join(order, ","))
 	}
-	deadline := r.Deadline(5*time.Minute, 40*time.Minute)
+	// internal time cap (never a failure): every product gets a share of the cap proportional to its
+	// size, unused time rolls over to the later products
+	started := time.Now()
+	capTotal := time.Until(r.Deadline(5*time.Minute, 40*time.Minute))
 	tally := engine.NewTally()
 	sps := spaces(r.Quick())
 	var nontrivial int64
+	var all, cum int64
+	for _, sp := range sps {
+		all += sp.odometer().Total()
+	}
 	for si, sp := range sps {
 		od := sp.odometer()
 		total := od.Total()
+		cum += total
+		deadline := started.Add(time.Duration(float64(capTotal) * float64(cum) / float64(all)))
 		var done int64
 		complete := engine.ParallelFor(total, nw, deadline, func(wi int, idx int64) {
 			if tally.Violations() >= 8 {
